@@ -43,10 +43,52 @@ def member_path(n):
         elif n.k == "UnaryOperator" and n.op in ("&", "*"):
             n = n.c[0]
         elif n.k == "DeclRefExpr":
+            init = _cached_init(n)
+            if init is not None:
+                # `T *const p = &x->a[i];` / `const E t = x->type;`: the local stands for the member it caches
+                n = init
+                continue
             return tuple(reversed(path))
         else:
             return None
     return None
+
+
+_INIT_CACHE = {}     # id(function body) -> (body kept alive, {decl id: initialiser or None})
+
+
+def _cached_init(ref):
+    """Initialiser of a local that is defined exactly once (its declaration) from a member expression and
+    never modified or address-taken afterwards; None for anything else (parameters, reassigned locals)."""
+    if ref.get("dk") != "local" or ref.get("d") is None:
+        return None
+    root = ref
+    for a in ref.ancestors():
+        root = a
+    cache = _INIT_CACHE.setdefault(id(root), (root, {}))[1]
+    d = ref.get("d")
+    if d in cache:
+        return cache[d]
+    init, bad = None, False
+    for n in root.walk():
+        if n.k == "DeclStmt":
+            for dd, i in zip(n.get("decls", []), n.c):
+                if dd.get("d") == d:
+                    init = i
+        elif is_assign(n) or (n.k == "UnaryOperator" and n.op in ("++", "--", "&")):
+            t = n.c[0].strip()
+            if t.k == "DeclRefExpr" and t.get("d") == d:
+                bad = True
+    res = None
+    if init is not None and not bad:
+        x = init.strip_casts()
+        while x is not None and x.k == "UnaryOperator" and x.op == "&":
+            x = x.c[0].strip_casts()
+        if x is not None and x.k in ("MemberExpr", "ArraySubscriptExpr") and \
+                any(m.k == "MemberExpr" for m in x.walk()):
+            res = init
+    cache[d] = res
+    return res
 
 
 class WField:
